@@ -337,6 +337,46 @@ func cloneCtx(ctx *hcl.EvalContext, f func(v cty.Value) cty.Value) *hcl.EvalCont
 	return out
 }
 
+// nfcSensitive: the expression concatenates strings whose junction may compose under NFC (cty.StringVal
+// normalises; the Coq model concatenates bytes): a combining mark in the text or in a scope string.
+func nfcSensitive(text string, ctx *hcl.EvalContext) bool {
+	comb := func(s string) bool {
+		for _, c := range s {
+			if c >= 0x0300 && c <= 0x036F {
+				return true
+			}
+		}
+		return false
+	}
+	if comb(text) {
+		return true
+	}
+	found := false
+	e, pd := hclsyntax.ParseExpression([]byte(text), "e.hcl", hcl.InitialPos)
+	if pd.HasErrors() {
+		return false
+	}
+	used := map[string]bool{}
+	for _, t := range e.Variables() {
+		used[t.RootName()] = true
+	}
+	for c := ctx; c != nil && !found; c = c.Parent() {
+		for name, v := range c.Variables {
+			if !used[name] {
+				continue
+			}
+			cty.Walk(v, func(_ cty.Path, x cty.Value) (bool, error) {
+				x, _ = x.Unmark()
+				if x.IsKnown() && !x.IsNull() && x.Type() == cty.String && comb(x.AsString()) {
+					found = true
+				}
+				return true, nil
+			})
+		}
+	}
+	return found
+}
+
 func refs(v cty.Value) string {
 	u, _ := v.Unmark()
 	return hv.DumpRefinements(u)
@@ -508,7 +548,12 @@ func run(cfg *hv.RunCfg) error {
 		inPrefix := ""
 		if text == "\x00tgt" {
 			ctxA = tgtScope()
-			text = tgtExpr(r)
+			if r.Chance(0.15) {
+				text = tgtLongTemplate(r)
+				rep.Hist("stream:targeted-long-template-prefix")
+			} else {
+				text = tgtExpr(r)
+			}
 			inPrefix = "tgt: "
 			rep.Hist("stream:targeted")
 		} else if strings.HasPrefix(text, "tgt: ") {
@@ -579,7 +624,7 @@ func run(cfg *hv.RunCfg) error {
 					mode = 1
 					rep.Hist("mode:type-only(inexact number)")
 				}
-				if ra == 2 || rc == 2 || info.Unsupported {
+				if ra == 2 || rc == 2 || info.Unsupported || nfcSensitive(text, ctxA) {
 					mode = 2
 					rep.Hist("mode:skipped(outside the model universe)")
 				}
